@@ -16,7 +16,7 @@ SYMBOLIC = False     # set while a symbolic harness runs: mutable buffers become
 
 
 def is_sym(x):
-    return isinstance(x, (SymInt, SymBool, SymBuf, SymStr)) or hasattr(type(x), 'sym_len')
+    return isinstance(x, (SymInt, SymBool, SymBuf, SymStr, core.SymQuot)) or hasattr(type(x), 'sym_len')
 
 
 # --------------------------------------------------------------------------- byte containers
@@ -360,6 +360,7 @@ def m_str(x=''):
 
 def m_int(x=0, *a):
     if isinstance(x, SymInt): return x
+    if isinstance(x, core.SymQuot): return x.trunc()
     if isinstance(x, SymBool): return lift(x)
     if isinstance(x, SymStr):
         if a: raise Unsupported('int(symbolic str, base)')
@@ -477,6 +478,10 @@ def _enc_int(v, n, signed, order, exc):
         v = v + (1 << (8 * n)) if v.hi < 0 else clamp(ite(v < 0, v + (1 << (8 * n)), v), 0, (1 << (8 * n)) - 1)
     out = [(v >> (8 * (n - 1 - i))) & 0xff for i in range(n)]
     out = [x.conc() if isinstance(x, SymInt) and x.conc() is not None else x for x in out]
+    for i, x in enumerate(out):
+        if isinstance(x, SymInt):
+            if x is v: x = out[i] = SymInt(x.e, x.lo, x.hi, x.bits)
+            x.prov = (v, i, n)          # octet i (MSB first) of the n-octet unsigned value v
     if order == 'little': out.reverse()
     return out
 
@@ -485,10 +490,15 @@ def _dec_int(it, signed, order):
     it = list(it)
     if order == 'little': it.reverse()
     n = len(it)
-    v = lift(0)
-    for b in it:
-        v = v * 256 + b
     if n == 0: return 0
+    p0 = it[0].prov if isinstance(it[0], SymInt) else None
+    if p0 is not None and p0[2] == n and all(isinstance(b, SymInt) and b.prov is not None and b.prov[0] is p0[0]
+                                              and b.prov[1] == i and b.prov[2] == n for i, b in enumerate(it)):
+        v = p0[0]        # sum of all octets of v weighted by 256^k is v itself (v in 0..2^(8n)-1)
+    else:
+        v = lift(0)
+        for b in it:
+            v = v * 256 + b
     if signed:
         h = 1 << (8 * n - 1)
         if v.hi is not None and v.hi < h: pass
